@@ -12,3 +12,47 @@ struct value_string {
 const char *get_value_string(const struct value_string *vs, uint32_t val);
 #define OSMO_ASSERT(exp) do { if (!(exp)) osmo_panic("Assert failed %s %s:%d\n", #exp, __FILE__, __LINE__); } while (0)
 void osmo_panic(const char *fmt, ...);
+
+#include <stdio.h>
+/* string-buffer helpers of newer libosmocore (osmocom/core/utils.h), as defined there */
+#ifndef OSMO_STRBUF_APPEND
+#include <stddef.h>
+#include <string.h>
+struct osmo_strbuf {
+	char *buf;
+	size_t len;
+	char *pos;
+	size_t chars_needed;
+};
+#define OSMO_STRBUF_REMAIN(STRBUF) \
+	((STRBUF).buf && ((STRBUF).pos - (STRBUF).buf) < (ptrdiff_t)(STRBUF).len ? \
+	 (STRBUF).len - (((STRBUF).pos ? (STRBUF).pos : (STRBUF).buf) - (STRBUF).buf) : 0)
+#define OSMO_STRBUF_APPEND(STRBUF, func, args...) do { \
+		if (!(STRBUF).pos) \
+			(STRBUF).pos = (STRBUF).buf; \
+		size_t _sb_remain = (STRBUF).buf ? (STRBUF).len - ((STRBUF).pos - (STRBUF).buf) : 0; \
+		int _sb_l = func((STRBUF).pos, _sb_remain, ##args); \
+		if (_sb_l < 0 || (size_t)_sb_l > _sb_remain) \
+			(STRBUF).pos = (STRBUF).buf + (STRBUF).len; \
+		else if ((STRBUF).pos) \
+			(STRBUF).pos += _sb_l; \
+		if (_sb_l > 0) \
+			(STRBUF).chars_needed += _sb_l; \
+	} while (0)
+#define OSMO_STRBUF_PRINTF(STRBUF, fmt, args...) OSMO_STRBUF_APPEND(STRBUF, snprintf, fmt, ##args)
+#define OSMO_STRBUF_APPEND_NOLEN(STRBUF, func, args...) do { \
+		if (!(STRBUF).pos) \
+			(STRBUF).pos = (STRBUF).buf; \
+		size_t _sb_remain = (STRBUF).buf ? (STRBUF).len - ((STRBUF).pos - (STRBUF).buf) : 0; \
+		if (_sb_remain) { \
+			func((STRBUF).pos, _sb_remain, ##args); \
+		} \
+		size_t _sb_l = (STRBUF).pos ? strnlen((STRBUF).pos, _sb_remain) : 0; \
+		if (_sb_l > _sb_remain) \
+			(STRBUF).pos = (STRBUF).buf + (STRBUF).len; \
+		else if ((STRBUF).pos) \
+			(STRBUF).pos += _sb_l; \
+		(STRBUF).chars_needed += _sb_l; \
+	} while (0)
+#define OSMO_STRBUF_CHAR_COUNT(STRBUF) ((STRBUF).chars_needed)
+#endif
